@@ -16,6 +16,10 @@ def run(mu):
         if s.count(mu['old']) != 1:
             return mu, 'STALE (old text occurs %d times)' % s.count(mu['old']), ''
         open(p, 'w').write(s.replace(mu['old'], mu['new']))
+        for f2, old2, new2 in mu.get('also', []):          # two cooperating sites
+            p2 = os.path.join(d, f2); s2 = open(p2).read()
+            if s2.count(old2) != 1: return mu, 'STALE (second site)', ''
+            open(p2, 'w').write(s2.replace(old2, new2))
         env = dict(os.environ, VF_REPO=d, VF_EVIDENCE_DIR=d, VF_REPLAY_DIR=d)
         r = subprocess.run([os.path.join(root, 'check'), mu['prop']], capture_output=True, text=True, env=env, timeout=1800)
         viol = [l for l in r.stdout.splitlines() if l.startswith('VIOLATION')]
